@@ -239,6 +239,28 @@ Proof.
   - inv_decode it E; injection E as <-. apply N.ltb_lt. eapply as_u64_bound; eauto.
 Qed.
 
+(* ---- decoding the CDDL encoding gives the script back ---- *)
+Lemma decode_list_map l :
+  Forall (fun s => representable s = true -> decode (to_item s) = Some s) l ->
+  forallb representable l = true -> decode_list (map to_item l) = Some l.
+Proof.
+  induction 1 as [|x r Hx _ IH]; cbn [map decode_list forallb]; intros Hr; [reflexivity|].
+  apply andb_true_iff in Hr. destruct Hr as [H1 H2]. now rewrite (Hx H1), (IH H2).
+Qed.
+
+Lemma decode_to_item : forall s, representable s = true -> decode (to_item s) = Some s.
+Proof.
+  induction s as [h|l IH|l IH|n l IH|b|b|t h] using script_ind'; cbn [representable]; intros Hr;
+    cbn [to_item decode]; fold decode_list; cbn [as_bytes as_u64 option_map].
+  - reflexivity.
+  - now rewrite (decode_list_map l IH Hr).
+  - now rewrite (decode_list_map l IH Hr).
+  - apply andb_true_iff in Hr. destruct Hr as [Hn Hl]. rewrite Hn, (decode_list_map l IH Hl). reflexivity.
+  - now rewrite Hr.
+  - now rewrite Hr.
+  - now rewrite Hr.
+Qed.
+
 (* ---- hashing ---- *)
 Lemma script_hash_eval H stored : heval H (script_hash stored) = H 1 (0 :: stored).
 Proof. cbn. now rewrite app_nil_r. Qed.
